@@ -522,14 +522,17 @@ func ruleWatchable(c *Ctx, r *R) {
 	}
 	// Set: new cell with t = param and c = fresh MakeChan (possibly built by a constructor helper); Swap; close(old.c) iff old != nil
 	var swap *ssa.Call
+	var swapArgs []ssa.Value
 	instrs(set, func(b *ssa.BasicBlock, i int, in ssa.Instruction) {
-		if x, ok := in.(*ssa.Call); ok && isCallTo(&x.Call, "sync/atomic", "Pointer", "Swap") {
-			swap = x
+		if x, ok := in.(*ssa.Call); ok {
+			if op, args, ok := atomicPtrOp(x); ok && op == "Swap" {
+				swap, swapArgs = x, args
+			}
 		}
 	})
 	okT, okC, okSwap := false, false, false
-	if swap != nil && len(swap.Call.Args) == 2 {
-		arg := swap.Call.Args[1]
+	if swap != nil && len(swapArgs) == 2 {
+		arg := swapArgs[1]
 		var helperCall *ssa.Call
 		if hc, ok := resolveVal(arg).(*ssa.Call); ok {
 			helperCall = hc
@@ -611,16 +614,22 @@ func ruleWatchable(c *Ctx, r *R) {
 	// the close must be reached whenever old != nil: its block is the true successor of the old != nil test (no further condition)
 	// Value
 	var cas *ssa.Call
+	var casArgs []ssa.Value
 	var empty ssa.Value
 	unbind := bindFuncParams(val)
 	defer unbind()
 	for _, d := range deepInstrs(val, 2) {
 		if call, ok := d.in.(*ssa.Call); ok {
-			if isCallTo(&call.Call, "sync/atomic", "Pointer", "CompareAndSwap") {
-				cas = call
-				if al, ok := call.Call.Args[2].(*ssa.Alloc); ok {
+			if len(d.calls) > 0 {
+				if _, _, thin := atomicPtrOp(d.calls[len(d.calls)-1]); thin {
+					continue // the inside of a thin accessor: judged at the accessor's call
+				}
+			}
+			if op, args, ok := atomicPtrOp(call); ok && op == "CompareAndSwap" && len(args) == 3 {
+				cas, casArgs = call, args
+				if al, ok := args[2].(*ssa.Alloc); ok {
 					empty = al
-				} else if bc, ok := call.Call.Args[2].(*ssa.Call); ok && staticCallee(&bc.Call) != nil {
+				} else if bc, ok := args[2].(*ssa.Call); ok && staticCallee(&bc.Call) != nil {
 					// built by the constructor literal the caller hands to a generic install helper (loadOrInit(&w.p, func()
 					// *inner { return &inner{c: make(chan struct{})} })): the call's result is that literal's fresh object
 					if _, isParam := bc.Call.Value.(*ssa.Parameter); isParam {
@@ -648,12 +657,12 @@ func ruleWatchable(c *Ctx, r *R) {
 		r.violated("xsync.Watchable.Value|cas", val.Pos(), "Value must install its placeholder with CompareAndSwap")
 		return
 	}
-	r.ok(isNilConst(cas.Call.Args[1]), "xsync.Watchable.Value|cas-from-nil", cas.Pos(), "the placeholder may replace only nil: any other old value would smash a real Set")
+	r.ok(isNilConst(casArgs[1]), "xsync.Watchable.Value|cas-from-nil", cas.Pos(), "the placeholder may replace only nil: any other old value would smash a real Set")
 	// the CAS is attempted only when Load() returned nil
 	loadNil := false
 	for _, g := range guardsOf(cas.Block()) {
 		if cf, ok := g.asCmp(); ok && cf.op == token.EQL && isNilConst(cf.y) {
-			if lc, ok := cf.x.(*ssa.Call); ok && isCallTo(&lc.Call, "sync/atomic", "Pointer", "Load") {
+			if lc, ok := cf.x.(*ssa.Call); ok && isAtomicPtrLoad(lc) {
 				loadNil = true
 			}
 		}
@@ -687,7 +696,7 @@ func ruleWatchable(c *Ctx, r *R) {
 			}
 			return out
 		case *ssa.Call:
-			if cal := staticCallee(&x.Call); cal != nil && cal.Blocks != nil && !isCallTo(&x.Call, "sync/atomic", "Pointer", "Load") {
+			if cal := staticCallee(&x.Call); cal != nil && cal.Blocks != nil && !isAtomicPtrLoad(x) {
 				var out []leaf
 				instrs(cal, func(bb *ssa.BasicBlock, i int, in ssa.Instruction) {
 					if ret, ok := in.(*ssa.Return); ok && len(ret.Results) == 1 {
@@ -793,7 +802,7 @@ func ruleWatchable(c *Ctx, r *R) {
 				}
 				switch x := lf.v.(type) {
 				case *ssa.Call:
-					if isCallTo(&x.Call, "sync/atomic", "Pointer", "Load") {
+					if isAtomicPtrLoad(x) {
 						sawLoaded = true
 						continue
 					}
@@ -1201,4 +1210,76 @@ func syncMapOnlyHoldsV(c *Ctx) bool {
 		})
 	}
 	return n > 0 && ok
+}
+
+// atomicPtrOp: call is a method call of sync/atomic.Pointer (Load, Store, Swap, CompareAndSwap) - directly, or through a thin
+// accessor of the package whose whole body is that one call on a field of its receiver with its own parameters / constants
+// as arguments, its result handed back unchanged (w.current(), w.publish(next), w.publishFirst(first)). The arguments are
+// given in the terms of call's frame (args[0], the pointer operand, stays in the accessor's terms).
+func atomicPtrOp(call *ssa.Call) (op string, args []ssa.Value, ok bool) {
+	for _, name := range []string{"Load", "Store", "Swap", "CompareAndSwap"} {
+		if isCallTo(&call.Call, "sync/atomic", "Pointer", name) {
+			return name, call.Call.Args, true
+		}
+	}
+	h := staticCallee(&call.Call)
+	if h == nil || h.Blocks == nil || len(h.Blocks) != 1 || h.Parent() != nil || curCtx == nil || !curCtx.inModule(h) {
+		return "", nil, false
+	}
+	var inner *ssa.Call
+	for _, in := range h.Blocks[0].Instrs {
+		switch x := in.(type) {
+		case *ssa.FieldAddr, *ssa.DebugRef, *ssa.Return, *ssa.Extract:
+		case *ssa.Call:
+			if inner != nil {
+				return "", nil, false
+			}
+			inner = x
+		default:
+			return "", nil, false
+		}
+	}
+	if inner == nil {
+		return "", nil, false
+	}
+	iop := ""
+	for _, name := range []string{"Load", "Store", "Swap", "CompareAndSwap"} {
+		if isCallTo(&inner.Call, "sync/atomic", "Pointer", name) {
+			iop = name
+		}
+	}
+	if iop == "" {
+		return "", nil, false
+	}
+	// the result is the inner call's, unchanged
+	if ret, isRet := h.Blocks[0].Instrs[len(h.Blocks[0].Instrs)-1].(*ssa.Return); isRet {
+		for _, rv := range ret.Results {
+			if rv != ssa.Value(inner) {
+				return "", nil, false
+			}
+		}
+	} else {
+		return "", nil, false
+	}
+	for i, a := range inner.Call.Args {
+		switch x := a.(type) {
+		case *ssa.Parameter:
+			args = append(args, argOf(x, []*ssa.Call{call}))
+		case *ssa.Const:
+			args = append(args, x)
+		case *ssa.FieldAddr:
+			if i != 0 {
+				return "", nil, false
+			}
+			args = append(args, x)
+		default:
+			return "", nil, false
+		}
+	}
+	return iop, args, true
+}
+
+func isAtomicPtrLoad(call *ssa.Call) bool {
+	op, _, ok := atomicPtrOp(call)
+	return ok && op == "Load"
 }
